@@ -295,3 +295,182 @@ Proof.
   - rewrite !map_cons, pm_total_cons, qsum_cons, IH. cbn [fst snd].
     destruct (fst pv =? p)%nat; [lra|]. rewrite qsum_vzero. lra.
 Qed.
+
+Lemma xsum_single_row0 f (m : pmol) p v T P :
+  zero_at_zero f ->
+  xsum f (map (fun pv : phase * vec => (fst pv, if (fst pv =? p)%nat then v else vzero (length (snd pv)))) m) T P
+  == qsum (map (fun pv : phase * vec => if (fst pv =? p)%nat then f p v T P else 0) m).
+Proof.
+  intros Hz. induction m as [|pv m IH].
+  - simpl. lra.
+  - rewrite !map_cons, xsum_cons, qsum_cons, IH. cbn [fst snd].
+    destruct (fst pv =? p)%nat eqn:E.
+    + apply Nat.eqb_eq in E. rewrite E. lra.
+    + pose proof (Hz (fst pv) (length (snd pv)) T P) as Z0. rewrite Z0. lra.
+Qed.
+
+Lemma qsum_indicator (m : pmol) p c :
+  NoDup (map fst m) -> In p (map fst m) ->
+  qsum (map (fun pv : phase * vec => if (fst pv =? p)%nat then c else 0) m) == c.
+Proof.
+  induction m as [|pv m IH]; intros ND I.
+  - destruct I.
+  - rewrite map_cons, qsum_cons. simpl in ND, I. inversion ND as [|x l NI ND']; subst.
+    destruct (fst pv =? p)%nat eqn:E.
+    + apply Nat.eqb_eq in E. subst p.
+      assert (Z : qsum (map (fun pv0 : phase * vec => if (fst pv0 =? fst pv)%nat then c else 0) m) == 0).
+      { clear IH ND ND' I. induction m as [|qv m IHm]; [reflexivity|].
+        rewrite map_cons, qsum_cons. destruct (fst qv =? fst pv)%nat eqn:E2.
+        - apply Nat.eqb_eq in E2. exfalso. apply NI. simpl. now left.
+        - rewrite IHm; [lra|]. intros I. apply NI. simpl. now right. }
+      rewrite Z. lra.
+    + destruct I as [I|I]; [apply Nat.eqb_neq in E; congruence|]. rewrite (IH ND' I). lra.
+Qed.
+
+Lemma qzerob_compat a b : a == b -> qzerob a = qzerob b.
+Proof.
+  intros E. destruct (qzerob b) eqn:B.
+  - apply qzerob_true. apply qzerob_true in B. lra.
+  - apply qzerob_false. apply qzerob_false in B. intros Z. apply B. lra.
+Qed.
+
+(* well-formed store entries *)
+Definition wfs (s : stream) : Prop :=
+  (if multi s then (2 <= length (pm s))%nat else length (pm s) = 1%nat) /\ NoDup (phases s).
+
+Lemma has_phase_In s p : has_phase s p = true -> In p (phases s).
+Proof.
+  unfold has_phase. intros H. apply existsb_exists in H. destruct H as (x & I & E).
+  apply Nat.eqb_eq in E. now subst.
+Qed.
+
+Lemma getH_any_div f s : homog f -> ~ total s == 0 -> prop_flow f s == xsum f (pm s) (sT s) (sP s).
+Proof. apply prop_flow_nonzero. Qed.
+
+Lemma prop_flow_eq_of f s1 s2 :
+  homog f -> total s1 == total s2 ->
+  xsum f (pm s1) (sT s1) (sP s1) == xsum f (pm s2) (sT s2) (sP s2) ->
+  prop_flow f s1 == prop_flow f s2.
+Proof.
+  intros Hh Ht Hx. unfold prop_flow. rewrite (qzerob_compat _ _ Ht).
+  destruct (qzerob (total s2)) eqn:Z; [reflexivity|].
+  apply qzerob_false in Z.
+  assert (Z1 : ~ total s1 == 0) by (rewrite Ht; exact Z).
+  rewrite (xsum_homog _ (pm s1) _ _ _ Hh Z1), (xsum_homog _ (pm s2) _ _ _ Hh Z). exact Hx.
+Qed.
+
+Lemma copy_like_reads O self o same s1 :
+  contracts O -> wfs self -> wfs o -> (same = true -> self = o) ->
+  copy_like self o same = Ok s1 ->
+  getH O s1 == getH O o /\ sP s1 = sP o.
+Proof.
+  intros C Ws Wo Same H. unfold copy_like in H.
+  destruct (multi self) eqn:Ms.
+  - destruct same.
+    + injection H as <-. rewrite (Same eq_refl). split; reflexivity.
+    + destruct (multi o) eqn:Mo.
+      * destruct (list_eqb Nat.eqb (phases self) (phases o)); [|discriminate].
+        injection H as <-. split; reflexivity.
+      * destruct (has_phase self (phase1 o)) eqn:HP; [|discriminate].
+        injection H as <-. split; [|reflexivity].
+        destruct Wo as [Lo _]. rewrite Mo in Lo.
+        destruct (pm o) as [|pv [|? ?]] eqn:Po; simpl in Lo; try discriminate.
+        assert (P1 : phase1 o = fst pv) by (unfold phase1; now rewrite Po).
+        assert (R1 : row1 o = snd pv) by (unfold row1; now rewrite Po).
+        destruct Ws as [_ NDs]. apply has_phase_In in HP.
+        apply prop_flow_eq_of; [apply (cH_homog _ C)| |]; unfold total; cbn [pm sT sP].
+        -- rewrite pm_total_single_row, qsum_indicator; auto.
+           rewrite Po, R1. simpl. lra.
+        -- rewrite (xsum_single_row0 _ _ _ _ _ _ (cH_zero _ C)), qsum_indicator; auto.
+           rewrite Po, P1, R1. simpl. lra.
+  - destruct (multi o) eqn:Mo.
+    + destruct Wo as [Lo _]. rewrite Mo in Lo.
+      destruct (pm o) as [|pv [|pv2 t]] eqn:Po; simpl in Lo; try lia.
+      injection H as <-. unfold getH, prop_flow, total. cbn [pm sT sP]. rewrite Po. split; reflexivity.
+    + destruct same.
+      * injection H as <-. rewrite (Same eq_refl). split; reflexivity.
+      * injection H as <-. split; reflexivity.
+Qed.
+
+Lemma imol_mix_TP self ins s2 : imol_mix self ins = Ok s2 -> sT s2 = sT self /\ sP s2 = sP self.
+Proof.
+  unfold imol_mix. destruct (multi self).
+  - destruct (forallb (has_phase self) (phases_of ins)); [|discriminate]. intros H; injection H as <-. auto.
+  - intros H; injection H as <-. auto.
+Qed.
+
+Lemma set_phases_P s chars s' : set_phases s chars = Ok s' -> sP s' = sP s.
+Proof.
+  unfold set_phases. intros H.
+  repeat match type of H with
+  | context [match ?x with _ => _ end] => destruct x
+  end; try discriminate; injection H as <-; auto using sP_set_phase1.
+Qed.
+
+Lemma sget_lt st i s : sget st i = Ok s -> (i < length st)%nat.
+Proof. intros H. apply sget_Some in H. apply nth_error_Some. congruence. Qed.
+
+Lemma sget_upd_same' st i s : (i < length st)%nat -> sget (upd st i s) i = Ok s.
+Proof. intros H. unfold sget. now rewrite nth_error_upd_same. Qed.
+
+Lemma sget_all_one st i ins : sget_all st [i] = Ok ins -> exists o, sget st i = Ok o /\ ins = [o].
+Proof.
+  simpl. unfold bind. destruct (sget st i) as [o|]; [|discriminate].
+  intros H; injection H as <-. now exists o.
+Qed.
+
+Lemma sget_wfs st i s : Forall wfs st -> sget st i = Ok s -> wfs s.
+Proof.
+  intros F H. apply sget_Some in H. apply nth_error_In in H.
+  rewrite Forall_forall in F. now apply F.
+Qed.
+
+Ltac dres H :=
+  match type of H with
+  | context [match ?x with Ok _ => _ | Err _ => _ end] =>
+      let E := fresh "E" in destruct x eqn:E; [|discriminate]
+  end.
+
+Lemma setH_P O s x s' e : setH O s x = (s', e) -> sP s' = sP s.
+Proof. intros H. apply set_with_shape in H. now destruct H as (_ & _ & P & _). Qed.
+
+(* the state of the receiver at the end of mix_from with at least two non-empty inlets: it is what a
+   successful [self.H = H] produced, with H the sum read from the initial store and P the lowest pressure *)
+Lemma mix_from_many O st r others Q0 st' i j l self :
+  streams_of st others = i :: j :: l -> sget st r = Ok self ->
+  mix_from O st r others Q0 = Ok st' ->
+  exists ins P sx s',
+    sget_all st (i :: j :: l) = Ok ins /\ minP ins = Ok P /\
+    setH O sx (sum_H O ins (heat_of others Q0)) = (s', None) /\ sP sx = P /\
+    sget st' r = Ok s' /\ length st' = length st /\
+    (forall k, k <> r -> nth_error st' k = nth_error st k).
+Proof.
+  intros SS Sr H. unfold mix_from in H. rewrite SS, Sr in H. cbn [bind] in H.
+  pose proof (sget_lt _ _ _ Sr) as Lr.
+  unfold bind in H.
+  dres H. rename a into ins. dres H. rename a into P.
+  dres H. rename a into self1. dres H. rename a into ins1. dres H. rename a into self2.
+  assert (G1 : self1 = set_P self P).
+  { rewrite sget_upd_same' in E1 by exact Lr. now injection E1 as <-. }
+  destruct (imol_mix_TP _ _ _ E3) as [_ P2]. rewrite G1 in P2. simpl in P2.
+  destruct (setH O self2 (sum_H O ins (heat_of others Q0))) as [sa [ea|]] eqn:SH.
+  - dres H. rename a into chars. dres H. rename a into s4. dres H. rename a into ins4. dres H. rename a into s5.
+    destruct (setH O s5 (sum_H O ins (heat_of others Q0))) as [sb [eb|]] eqn:SH2; [discriminate|].
+    injection H as <-.
+    exists ins, P, s5, sb. split; [reflexivity|]. split; [exact E0|]. split; [exact SH2|].
+    split.
+    { destruct (imol_mix_TP _ _ _ E7) as [_ P5]. rewrite P5, (set_phases_P _ _ _ E5), (setH_P _ _ _ _ _ SH). exact P2. }
+    assert (L4 : length (upd (upd (upd (upd st r (set_P self P)) r self2) r sa) r s4) = length st)
+      by (rewrite !upd_length; reflexivity).
+    split; [|split].
+    + apply sget_upd_same'. rewrite L4. exact Lr.
+    + rewrite upd_length. exact L4.
+    + intros k Hk. rewrite !nth_error_upd_other by auto. reflexivity.
+  - injection H as <-.
+    exists ins, P, self2, sa. split; [reflexivity|]. split; [exact E0|]. split; [exact SH|].
+    split; [exact P2|].
+    split; [|split].
+    + apply sget_upd_same'. rewrite !upd_length. exact Lr.
+    + rewrite !upd_length. reflexivity.
+    + intros k Hk. rewrite !nth_error_upd_other by auto. reflexivity.
+Qed.
